@@ -110,6 +110,23 @@ def make_fn(tier, max_all=6, big_size=2):
             t = mk(dict(db), root, rc)
             apply_op(t, {}, op)
             mut_complete[op] = state_of(t)
+        second_in_batch = {}
+        for op, _ in muts:
+            k = op[1]
+            other = [x for x in sysm.keys if x != k][0]
+            pre_op = ("set", other, vals[1])
+            m1 = dict(model)
+            m1[other] = vals[1]
+            kn = mpt.nib(k)
+            allowed2 = [nd.hash for nd in mpt.path(m1, kn) if nd.hashed]
+            if op[0] != "set":
+                sib = delete_sibling(m1, kn)
+                if sib:
+                    allowed2.append(sib)
+            t = mk(dict(db), root, rc)
+            apply_op(t, {}, pre_op)
+            apply_op(t, {}, op)
+            second_in_batch[op] = (allowed2, state_of(t), pre_op)
         paths = set()
         for k in model:
             kn = mpt.nib(k)
@@ -203,13 +220,19 @@ def make_fn(tier, max_all=6, big_size=2):
                 o.viol("C07", "failed_call_changed_state", "lookups / traversals changed the trie", call="lookups")
             # ---------------- mutations: fresh faulty trie per call, direct and inside a batch
             for op, allowed in muts:
-                want = mut_complete[op]
-                for in_batch in (False, True):
+                for in_batch in (False, True, 2):
+                    want = mut_complete[op]
+                    pre_op = None
+                    if in_batch == 2:
+                        # the failing call is the SECOND operation of a batch: the batch already holds buffered writes
+                        if op[0] == "clr" or (op[0] == "set" and op[2] != vals[1]):
+                            continue
+                        allowed, want, pre_op = second_in_batch[op]
                     o.evals += 1
                     ft = mk(dict(fdb0), root, rc)
                     k = op[1]
                     asked = []
-                    ok = mutate_with_retry(o, ft, op, in_batch, db, Mset, set(allowed), asked, check_exc, root)
+                    ok = mutate_with_retry(o, ft, op, in_batch, db, Mset, set(allowed), asked, check_exc, root, pre_op)
                     if not ok:
                         continue
                     if asked:
@@ -282,7 +305,7 @@ def self_check_traverse(o, ft, db, Mset, p, want, allowed, pos_of, call, kind, q
         del ft.db[h]
 
 
-def mutate_with_retry(o, ft, op, in_batch, db, Mset, allowed, asked, check_exc, root):
+def mutate_with_retry(o, ft, op, in_batch, db, Mset, allowed, asked, check_exc, root, pre_op=None):
     k = op[1]
     if not in_batch:
         while True:
@@ -309,6 +332,18 @@ def mutate_with_retry(o, ft, op, in_batch, db, Mset, allowed, asked, check_exc, 
     outer_before = state_of(ft)
     try:
         with ft.squash_changes() as b:
+            while pre_op is not None:
+                # a successful first operation of the batch (nodes it needs are supplied without checks)
+                try:
+                    apply_op(b, {}, pre_op)
+                    outer_before = state_of(ft)
+                    break
+                except MissingTrieNode as e:
+                    h = bytes(e.missing_node_hash)
+                    if h not in db or h in ft.db:
+                        o.viol("C07", "missing_hash_not_absent", "the reported hash is not one of the absent node bodies", call=pre_op[0], key=pre_op[1], reported=h)
+                        raise _Stop()
+                    ft.db[h] = db[h]
             while True:
                 bb = (b.root_hash, dict(b.db.cache), {kk: vv for kk, vv in b._ref_count.items() if vv}, b._pending_prune_keys)
                 try:
